@@ -239,6 +239,9 @@ func (e *Expr) updateRegistry(values map[string]reflect.Value) {
 func (e *Expr) newEnv(input reflect.Value) *environment {
 
 	tc := timeCallables(time.Now())
+	if t, ok := vclock(); ok {
+		tc = timeCallables(t)
+	}
 
 	vpoint(vRead, unsafe.Pointer(&e.registry))
 	vpoint(vRead, vmap(e.registry))
